@@ -697,7 +697,9 @@ def main(argv):
         "fault_kinds_fired": {k: stats.get(k, 0) for k in
                               ["writes_attempted", "writes_raised", "writes_succeeded_on_copy", "writes_succeeded_elsewhere",
                                "write_before_first_asnumpy", "write_after_asnumpy"]},
-        "probes": {k: stats.get(k, 0) for k in ["fields", "handles", "operators", "checks"]},
+        "probes": {k: stats.get(k, 0) for k in ["fields", "handles", "operators", "checks", "touches",
+                                                "fields_from_derived_arrays", "fields_from_pickle_or_copy",
+                                                "container_handles", "container_edits"]},
         "real_components": ["nifty.cl Field, MultiField, AnyArray, makeField, makeOp, Adder, GaussianEnergy"],
         "stub_components": ["none - the 'simulator' is the adversarial writer and the snapshot model"],
     }
